@@ -360,8 +360,56 @@ def r02_3(ctx: Ctx, rep: Report) -> None:
             rep.ok(f"{f.qualname}: explicit raises", "no lookup-type exception", nontrivial=False, where=where(f))
 
 
+def ios_members_unnumbered(ctx: Ctx, rep: Report, rid: str = "R02.10") -> None:
+    """Members of an IOS object-group carry no sequence number (docs/objects.rst: "sequence ... only for platform nxos";
+    AddressAg.line writes the number whenever it is non-zero): every normal path of AddressAg's platform setter that ends
+    on platform ios leaves _sequence at 0, whatever kind of member it is."""
+    rep.rule(rid)
+    cls = ctx.cls("AddressAg")
+    st = cls.lookup_setter("platform")
+    rep.require(st is not None, "AddressAg lost its platform setter")
+    from .normalise import normalised
+
+    f = normalised(ctx, st, "calls")
+    cfg = ctx.cfg(f)
+    paths = [p for p in function_paths(cfg) if not p.raises]
+    rep.instance(len(paths))
+    rep.floor(2, "normal paths of AddressAg.platform setter")
+    n_ios = 0
+    seen_keys: Set[Tuple] = set()
+    for p in paths:
+        feas = True
+        for test, truth in p.atoms:
+            v = ctx.folder.fold(test, f.module, {"self._platform": "ios", "self.platform": "ios"})
+            if known(v) and bool(v) != truth:
+                feas = False
+                break
+        if not feas:
+            continue
+        n_ios += 1
+        key = tuple((src(t), tr) for t, tr in p.atoms if "latform" not in src(t) and not src(t).startswith("item"))
+        if key in seen_keys:
+            continue
+        seen_keys.add(key)
+        cleared = False
+        for node, _lab in p.nodes:
+            if node.kind == "stmt" and isinstance(node.ast, (ast.Assign, ast.AnnAssign)) and node.ast.value is not None:
+                tgts = node.ast.targets if isinstance(node.ast, ast.Assign) else [node.ast.target]
+                if any(isinstance(t, ast.Attribute) and src(t.value) == "self" and t.attr in ("_sequence", "sequence") for t in tgts) and isinstance(node.ast.value, ast.Constant) and node.ast.value.value == 0:
+                    cleared = True
+        held = "; ".join(f"{snippet(t, 40)}{'' if tr else ' (false)'}" for t, tr in p.atoms if "latform" not in src(t))[:160]
+        if cleared:
+            rep.ok(f"AddressAg.platform setter -> ios [{held}]", "_sequence = 0 on this path", where=where(st))
+        else:
+            rep.violation("AddressAg.platform.setter", f"path to ios [{held}]", "a member converted to IOS keeps its NX-OS sequence number on this path: the object-group is rendered with a numbered entry ('10 host 10.0.0.1'), which is not IOS syntax (sequence numbers exist only on nxos)", where(st), inp="AddressAg('10 host 10.0.0.1', platform='nxos').platform = 'ios'  ->  '10 host 10.0.0.1'")
+    rep.instance()
+    if n_ios == 0:
+        rep.violation("AddressAg.platform.setter", "paths ending on ios", "no normal path of the setter is feasible for platform ios", where(st))
+
+
 def run(ctx: Ctx, rep: Report, tier: str) -> None:
     r02_1(ctx, rep)
+    ios_members_unnumbered(ctx, rep)
     render_after_switch(ctx, rep)
     normalised_platform_only(ctx, rep)
     # R02.2: conversion to NX-OS splits multi-port entries first; the split itself must keep every item (C19's rules)
